@@ -265,3 +265,22 @@ def corrupt(r, text):
     if k == 4:
         return text[:i] + r.choice(["}", "]", "\"", ",", ":", "=", "\n", "e", ".", "-"]) + text[i + 1:]
     return text + r.choice(["}", "]", "\"", ",", "x", "\n[", "\n- ", ": :", "= ="])
+
+
+def corrupt_bytes(r, data):
+    """make the file invalid UTF-8: a stray or truncated multi-byte sequence somewhere after the first two bytes
+    (a leading FF FE / FE FF would be a UTF-16 byte order mark, which YAML allows)"""
+    bad = r.choice([b"\xff", b"\xc3", b"\x80", b"\xe2\x82", b"\xc0\xaf", b"\xed\xa0\x80", b"\xf8\x88\x80\x80\x80", b"\xe9"])
+    if len(data) < 3:
+        return data + bad
+    i = r.randint(2, len(data))
+    # not in the middle of an existing multi-byte character, so that only `bad` is wrong
+    while i < len(data) and (data[i] & 0xC0) == 0x80:
+        i += 1
+    if r.random() < 0.5:
+        return data[:i] + bad + data[i:]
+    # replace the next character
+    j = i + 1
+    while j < len(data) and (data[j] & 0xC0) == 0x80:
+        j += 1
+    return data[:i] + bad + data[j:]
